@@ -1550,7 +1550,7 @@ impl Scenario for C07 {
     fn runs(&self, tier: Tier) -> u64 {
         match tier {
             Tier::Quick => 300,
-            Tier::Thorough => 8000,
+            Tier::Thorough => 4000,
         }
     }
 
